@@ -72,7 +72,7 @@ TPush   == Is("Push") /\ Push(E.s) /\ StateOK
 TPop    == Is("Pop") /\ Pop /\ StateOK
 TPopU   == Is("PopU") /\ PopUnderflow /\ l + 1 <= Len(Tr) /\ Tr[l + 1].e = "Fatal"
 TTop    == Is("Top") /\ TopIs(E.v) /\ Same
-TSetBol == Is("SetBol") /\ SetBol(E.v = 1) /\ StateOK
+TSetBol == Is("SetBol") /\ SetBol(E.v # 0) /\ StateOK   \* "a non-zero argument makes ^ rules active"
 TSetLineno == Is("SetLineno") /\ SetLineno(E.v) /\ E.got = E.v /\ StateOK
 TEof    == Is("Eof") /\ (IF opt.userwrap THEN EofAct(E.k) ELSE AtEof(E.k)) /\ StateOK
 \* yylex() returned 0: either an <<EOF>> action just did that, or the default one does
